@@ -3,6 +3,7 @@
 // Each load runs in a forked child with an allocation budget proportional to the file size, a wall-clock limit and
 // (in the sanitizer build) ASan/UBSan. One event per mutation on stdout:
 //   {"e":"LoadMut","seed":k,"m":<descriptor>,"out":"loaded|refused|signal|non_std|alloc|timeout","size":n,"maxalloc":a,"ms":t}
+// "timeout" = the load used more processor time than 20 s + 10 us per byte of the file
 #include "newdelete.cpp"
 #include "proj.h"
 #include <iostream>
@@ -52,15 +53,28 @@ int main(int argc, char **argv) {
         fflush(stdout);
         pid_t pid = fork();
         if (pid == 0) {
-            unsigned limit = 10 + static_cast<unsigned>(b.size() / 100000);      // seconds: linear in the file size, generous constant
-            alarm(limit);
+            // the time limit is on the processor time of the load itself (linear in the file size, generous constant): a wall-clock limit, or
+            // one that includes this harness walking the result, reports a slow machine or a slow harness instead of a hang of the loader
+            unsigned limit = 20 + static_cast<unsigned>(b.size() / 100000);
+            struct itimerval tv; memset(&tv, 0, sizeof tv); tv.it_value.tv_sec = limit;
+            setitimer(ITIMER_PROF, &tv, 0);                                   // SIGPROF ends the child: "timeout"
             g_alloc_max = 0; g_alloc_total = 0; g_alloc_over = 0;
             g_alloc_budget = 64 * b.size() + (static_cast<size_t>(16) << 20);     // 64 x file size + 16 MiB
             std::string out = "loaded";
             try {
                 ezc3d::c3d c(path);
-                J a = verif::abs(c);            // walk the whole object through the public accessors
-                (void)a;
+                memset(&tv, 0, sizeof tv); setitimer(ITIMER_PROF, &tv, 0);    // loaded: the clock stops here
+                alarm(600);                                                   // (backstop for the walk below, far beyond anything it needs)
+                // walk the object through the public accessors: everything but the frames always, every frame when there are few,
+                // else the first and last hundred (a damaged count may announce tens of thousands of frames the file does not hold)
+                const ezc3d::ParametersNS::Parameters &P = c.parameters();
+                J h = verif::header(c.header()); (void)h;
+                for (size_t i = 0; i < P.nbGroups(); ++i) { J g = verif::group(P.group(i)); (void)g; }
+                size_t nf = c.data().nbFrames();
+                for (size_t i = 0; i < nf; ++i) {
+                    if (nf > 400 && i >= 100 && i + 100 < nf) continue;
+                    J f = verif::frame(c.data().frame(i)); (void)f;
+                }
             } catch (const std::exception &) { out = "refused"; }
             catch (...) { out = "non_std"; }
             size_t mx = g_alloc_max; int over = g_alloc_over;
@@ -76,7 +90,7 @@ int main(int argc, char **argv) {
         if (WIFEXITED(st) && WEXITSTATUS(st) == 0) continue;
         std::string out = "signal";
         long long sig = WIFSIGNALED(st) ? WTERMSIG(st) : -WEXITSTATUS(st);
-        if (WIFSIGNALED(st) && WTERMSIG(st) == SIGALRM) out = "timeout";
+        if (WIFSIGNALED(st) && (WTERMSIG(st) == SIGPROF || WTERMSIG(st) == SIGALRM)) out = "timeout";
         J ev = J::obj().set("e", "LoadMut").set("seed", J(k)).set("m", m).set("out", out).set("sig", J(sig)).set("size", J(b.size()))
                        .set("maxalloc", J(0)).set("ms", J(static_cast<long long>(nowMs() - t0)));
         std::string s; ev.dump(s); s += '\n';
